@@ -43,8 +43,9 @@ def digest(obj):
     return hashlib.sha256(rm.cj(obj).encode()).hexdigest()[:12]
 
 
-def segment_env(env_spec, repo):
-    env = {"PATH": "/usr/bin:/bin", "HOME": "/tmp", "PYTHONPATH": VERIF,
+def segment_env(env_spec, repo, tmpdir=None):
+    env = {"PATH": "/usr/bin:/bin", "HOME": tmpdir or "/tmp", "TMPDIR": tmpdir or "/tmp",
+           "PYTHONPATH": VERIF,
            "PYTHONHASHSEED": str(env_spec.get("hashseed", 0)),
            "PYTHONPYCACHEPREFIX": os.environ.get("FMSIM_PYC") or os.path.join(
                scratch_base(), "fmsim-pyc-%s" % digest(repo)),
@@ -53,11 +54,11 @@ def segment_env(env_spec, repo):
     return env
 
 
-def run_segment(job, env_spec, repo, wall=120):
+def run_segment(job, env_spec, repo, wall=120, tmpdir=None):
     job = dict(job)
     job["repo"] = repo
     job["wall_limit"] = wall
-    env = segment_env(env_spec, repo)
+    env = segment_env(env_spec, repo, tmpdir)
     try:
         proc = subprocess.run([PYTHON, "-c", "from fmsim.worker import main; main()"],
                               input=json.dumps(job).encode(), stdout=subprocess.PIPE,
@@ -85,6 +86,7 @@ def execute_replica(plan, ridx, repo):
         segments = isolate_lanes(segments)
     try:
         files = {}
+        ticks = 0
         for sidx, seg in enumerate(segments):
             env_spec = dict(seg.get("env", {}))
             over = replica.get("env_by_segment")
@@ -99,17 +101,25 @@ def execute_replica(plan, ridx, repo):
                 env_tags.append("env.short_writes")
             if disk_cfg.get("short_r"):
                 env_tags.append("env.short_reads")
+            if disk_cfg.get("mtime_mode", "real") != "real":
+                env_tags.append("env.mtime_" + disk_cfg["mtime_mode"])
             job = {"scenario": plan["scenario"], "prop": plan.get("prop"),
                    "disk_root": os.path.join(root, "disk"),
                    "disk_cfg": disk_cfg, "cwd": seg.get("cwd", "."),
                    "mkdirs": plan.get("mkdirs", []), "files": files, "ops": seg["ops"],
-                   "env_tags": env_tags, "frame_check": plan.get("frame_check", True)}
-            res = run_segment(job, env_spec, repo, plan.get("wall", 120))
+                   "env_tags": env_tags, "frame_check": plan.get("frame_check", True),
+                   "clock_ticks": ticks}
+            # the run's private temporary directory: anything the library leaves in
+            # tempfile.gettempdir() survives a restart of the run, never leaks into another run
+            tmpdir = os.path.join(root, "tmp")
+            os.makedirs(tmpdir, exist_ok=True)
+            res = run_segment(job, env_spec, repo, plan.get("wall", 120), tmpdir)
             res["env_spec"] = env_spec
             results.append(res)
             if not res.get("ok"):
                 break
             files = res["files"]
+            ticks = res.get("clock_ticks", ticks)
     finally:
         shutil.rmtree(root, ignore_errors=True)
     return results
@@ -343,11 +353,16 @@ def _renumber(plan):
     return plan
 
 
-def _candidates_drop_ops(plan):
-    """Yield plans with chunks of ops removed (ddmin-style, coarse to fine)."""
+def _candidates_drop_ops(plan, keep_edits=False):
+    """Yield plans with chunks of ops removed (ddmin-style, coarse to fine).  With keep_edits,
+    EDIT operations are never removed: a later EDIT carries the reference planned *after* the
+    earlier ones, so dropping one would make the plan inconsistent with itself and 'reproduce'
+    a contamination failure for the wrong reason."""
     flat = []
     for sidx, seg in enumerate(plan["segments"]):
         for oidx in range(len(seg["ops"])):
+            if keep_edits and seg["ops"][oidx]["op"] == "EDIT":
+                continue
             flat.append((sidx, oidx))
     n = len(flat)
     chunk = max(n // 2, 1)
@@ -479,7 +494,7 @@ def shrink(plan, target, repo, budget=120, known=None, log=None, seconds=90):
     progress = True
     while progress and spent[0] < budget:
         progress = False
-        for cand in _candidates_drop_ops(best):
+        for cand in _candidates_drop_ops(best, target["check"].startswith("frame.fresh_model")):
             if sum(len(s["ops"]) for s in cand["segments"]) == \
                     sum(len(s["ops"]) for s in best["segments"]):
                 continue
